@@ -876,6 +876,8 @@ class RegionLifter:
         if name == "slice":
             a = [self.as_int(x) for x in args]
             return slice(*a)
+        if name == "np.diag" and isinstance(args[0], Mat):
+            return Vec(args[0][i][i] for i in range(min(len(args[0]), len(args[0][0]))))
         if name == "np.append":
             a, b = args
             return Vec(list(a) + (list(b) if isinstance(b, (list, tuple)) else [b]))
